@@ -273,7 +273,7 @@ def _flag_writers(A, ctx):
 
 @rule('R05.i', ('C05', 'C06'), 'a parsing-mode flag stays set for the whole '
       'construct: nothing reachable between enter_x() and exit_x() clears it',
-      floor=2,
+      floor=1,
       decides='a definition inside a routine body is rejected wherever in the '
               'body it stands: routine bodies are never nested in the '
               'generated code')
@@ -329,5 +329,5 @@ def r05i(R):
                     'the rest of a routine body is accepted and its body is '
                     'generated inside the enclosing one' % (
                         g.short, flag, bad[0].short if bad else '', path))
-    if seen < 2:
-        raise AnalysisError('only %d enter/exit regions found' % seen)
+    if seen < 1:
+        raise AnalysisError('no enter/exit region found')
